@@ -507,6 +507,12 @@ func (e *kvElection) attemptPriorityTakeover(payloadBytes []byte) error {
 	if err != nil {
 		return err
 	}
+	if entry == nil {
+		// The adapters answer (nil, nil) for a key that holds no entry: the
+		// record was deleted between the refused Create and this read. There is
+		// nothing to preempt; the caller's retry creates the key.
+		return fmt.Errorf("priority takeover skipped: the leadership record is gone")
+	}
 
 	var currentPayload leadershipPayload
 	if err := json.Unmarshal(entry.Value(), &currentPayload); err != nil {
